@@ -68,7 +68,7 @@ func buildByHistory(newSel func() selector.Selector, target []endpoint.Endpoint,
 		}
 		return n
 	}
-	switch v % 6 {
+	switch v % 8 {
 	case 0: // one refresh
 		s.Refresh(target)
 		h = append(h, hstep{"refresh", names(target)})
@@ -111,6 +111,24 @@ func buildByHistory(newSel func() selector.Selector, target []endpoint.Endpoint,
 			_ = s.Remove(e)
 		}
 		h = append(h, hstep{"add/remove/add detours + extras added then removed", names(extra)})
+	case 6: // the same hosts refreshed with other weights first: a refresh replaces what was known
+		other := append([]endpoint.Endpoint(nil), target...)
+		for i := range other {
+			other[i].Weight = other[i].Weight*2 + int32(1+i%3)
+		}
+		s.Refresh(other)
+		s.Refresh(target)
+		h = append(h, hstep{"refresh (same hosts, weights 2w+1..3)", names(other)}, hstep{"refresh", names(target)})
+	case 7: // the same hosts refreshed on other ports first, then the identical refresh twice
+		other := append([]endpoint.Endpoint(nil), target...)
+		for i := range other {
+			other[i].Port += 1000
+			other[i].Key = other[i].String()
+		}
+		s.Refresh(other)
+		s.Refresh(target)
+		s.Refresh(target)
+		h = append(h, hstep{"refresh (same hosts, ports +1000)", names(other)}, hstep{"refresh", names(target)}, hstep{"refresh", names(target)})
 	default: // refresh something else first, then refresh the target in shuffled order
 		s.Refresh(extra)
 		sh := append([]endpoint.Endpoint(nil), target...)
@@ -161,8 +179,13 @@ func conhashSet(r *rand.Rand, target, extra []endpoint.Endpoint, weighted, ketam
 	codes := probeCodes(ring, r, 300)
 	var insts []selector.Selector
 	var hists [][]hstep
+	rot := r.Intn(6)
 	for v := 0; v < nHist; v++ {
-		s, h := buildByHistory(newSel, target, extra, v, r)
+		hv := v
+		if v >= 2 && nHist < 8 {
+			hv = 2 + (v-2+rot)%6 // which of the longer histories a set gets rotates from set to set
+		}
+		s, h := buildByHistory(newSel, target, extra, hv, r)
 		insts = append(insts, s)
 		hists = append(hists, h)
 	}
@@ -253,7 +276,7 @@ func modhashSet(r *rand.Rand, target, extra []endpoint.Endpoint, weighted bool, 
 	var insts []selector.Selector
 	var hists [][]hstep
 	// mod-hash depends on the installed ORDER, so only order-preserving histories reach "the same list"
-	for _, v := range []int{0, 1, 3} {
+	for _, v := range []int{0, []int{1, 6, 7}[r.Intn(3)], 3} {
 		var s selector.Selector
 		var h []hstep
 		if v == 3 {
